@@ -49,7 +49,7 @@ TOKEN = {k: i + 1 for i, k in enumerate(sorted(SCALAR))}
 class LogWorld:
     def __init__(self, rnd):
         self.rnd = rnd
-        texts = ['text of %s' % k for k in STR_KEYS] + ['literal %d' % i for i in range(6)] + ['%d', 'tok', 'type ns', 'obj repr']
+        texts = ['text of %s' % k for k in STR_KEYS] + ['literal %d' % i for i in range(5)] + ['%d', 'tok', 'type ns', 'obj repr', '']
         rnd.shuffle(texts)
         self.strings = {i: t for i, t in enumerate(texts)}              # id -> text (string numbers start at 0)
         self.sid = {t: i for i, t in self.strings.items()}
@@ -62,13 +62,13 @@ class LogWorld:
     def dm(self, shape):
         """decomposed message of a given shape: (raw plist dict, abstract raw, expected normalised decode)"""
         rnd = self.rnd
-        lit = [self.sid['literal %d' % i] for i in range(6)]
+        lit = [self.sid['literal %d' % i] for i in range(5)] + [self.sid['']]       # one literal prefix is the empty string
         nseg = shape
         segs_raw, segs_abs = [], []
         for j in range(nseg):
             seg, ab = {}, [-1, [], []]
             if rnd.random() < 0.8:
-                seg['lp'] = lit[j % 6]
+                seg['lp'] = rnd.choice(lit)
                 ab[0] = seg['lp']
             if rnd.random() < 0.8:
                 ph = {'w': rnd.randrange(0, 9), 'p': rnd.randrange(0, 80)}
@@ -150,7 +150,7 @@ class LogWorld:
         raw, ab = {}, {}
         for k in ['cm', 't', 's', 'tid', 'ns', 'mct', 'b', 'piu', 'ud', 'utz'] + list(keys):
             if k in STR_KEYS:
-                raw[k] = self.key_sid[k]
+                raw[k] = self.key_sid[k] if k == 'cm' or self.rnd.random() < 0.9 else self.sid['']
                 ab[k] = raw[k]
             elif k in SCALAR:
                 raw[k] = SCALAR[k]
@@ -191,7 +191,7 @@ class LogWorld:
             if v == '__missing__':
                 continue
             if k in STR_KEYS:
-                dec[f] = -1 if v == '' and k != 'cm' else self.sid.get(v, -2)
+                dec[f] = self.sid.get(v, -2)
             elif k in SCALAR:
                 if v == inv_scalar[k] and type(v) is type(inv_scalar[k]):
                     dec[f] = TOKEN[k]
@@ -272,7 +272,7 @@ def run(ctx):
     obs, raws = [], {}
 
     def observe(oid, raw, ab, via):
-        o = {'id': oid, 'raw': ab}
+        o = {'id': oid, 'raw': ab, 'empty': lw.sid['']}
         try:
             ev = decode_direct(lw, raw) if via == 'direct' else decode_via_file(lw, raw)
             o['dec'] = lw.project(ev, dflt)
